@@ -443,4 +443,11 @@ def r5_saturating_conversion(ctx):
         ctx.check(ok and not plain, q + "#saturating", f"result = convert_to_unsigned(codes, bit_resolution={bits}, ...)" if ok and not plain else "the float codes are converted without saturating at 2**bits - 1: above 53 bit a saturated input becomes 2**bits (or wraps to 0 at 64 bit)", where=f, node=rets[0] if rets else f.node)
 
 
-RULES = [r5_saturating_conversion, r1_dtype_table, r2_clip_scale_trunc_cast, r3_type_wide_enough, r4_sar_siblings]
+def r6_collected_codes_do_not_wrap(ctx):
+    """"Never wrap": the digitised image of every run must also survive being collected - on the dask path of an observation the per-run arrays are converted to the dtype declared from the first run (shared with C07.R11)."""
+    from props.C07 import r11_task_results_fit_declared_types
+
+    r11_task_results_fit_declared_types(ctx)
+
+
+RULES = [r6_collected_codes_do_not_wrap, r5_saturating_conversion, r1_dtype_table, r2_clip_scale_trunc_cast, r3_type_wide_enough, r4_sar_siblings]
